@@ -1,6 +1,7 @@
 import MdVerif.Properties.C05
 import MdVerif.Properties.C07
 import MdVerif.Properties.C17
+import MdVerif.Properties.C16
 /-!
 # C09 — observables are invariant under rigid motion and lattice translation
 
@@ -100,3 +101,118 @@ example : (⟨⟨3/5, -4/5, 0⟩, ⟨0, 0, -1⟩, ⟨4/5, 3/5, 0⟩⟩ : M3).Ort
   simp only [M3.Orthogonal, detM, V3.dot, V3.cross]; norm_num
 
 end MdVerif.Mic
+
+/-! ## shape descriptors: the gyration tensor and the radius of gyration do not see a translation
+
+`compute_gyration_tensor`, `compute_rg` and everything derived from them (asphericity, acylindricity, relative shape anisotropy, principal
+moments) subtract the centre of the very coordinates they are given; `c09_gyration_translate` is the statement for every list of positions and
+every translation, `c09_uncentred_witness` shows that the tensor taken about a fixed point (what a stale "already centred" flag amounts to) is
+not invariant. -/
+namespace MdVerif.Descr
+open MdVerif.Mic MdVerif.UnitCell
+
+/-- every position moved by `t`, weights kept -/
+def shiftW (t : V3) (l : List (Rat × V3)) : List (Rat × V3) := l.map (fun p => (p.1, p.2.add t))
+
+theorem wTotal_shift (t : V3) (l : List (Rat × V3)) : wTotal (shiftW t l) = wTotal l := by
+  simp [wTotal, shiftW, List.map_map, Function.comp_def]
+
+theorem wFirst_shift (t : V3) (l : List (Rat × V3)) : wFirst (shiftW t l) = (wFirst l).add (V3.smul (wTotal l) t) := by
+  induction l with
+  | nil => simp [wFirst, shiftW, wTotal, V3.add, V3.smul]
+  | cons p ps ih =>
+    simp only [wFirst, shiftW, wTotal, List.map_cons, List.foldr_cons, List.sum_cons] at ih ⊢
+    rw [ih]
+    simp only [V3.add, V3.smul, V3.mk.injEq]
+    refine ⟨by ring, by ring, by ring⟩
+
+/-- **the centre of mass moves with the system** -/
+theorem c09_com_translate (t : V3) (l : List (Rat × V3)) (hW : wTotal l ≠ 0) : com (shiftW t l) = (com l).add t := by
+  simp only [com, wFirst_shift, wTotal_shift, V3.add, V3.smul, V3.mk.injEq]
+  refine ⟨by field_simp, by field_simp, by field_simp⟩
+
+theorem sub_shift (a c t : V3) : (a.add t).sub (c.add t) = a.sub c := by
+  simp only [V3.add, V3.sub, V3.mk.injEq]
+  refine ⟨by ring, by ring, by ring⟩
+
+theorem wOuter_shift (t c : V3) (l : List (Rat × V3)) : wOuter (shiftW t l) (c.add t) = wOuter l c := by
+  induction l with
+  | nil => rfl
+  | cons p ps ih =>
+    simp only [wOuter, shiftW, List.map_cons, List.foldr_cons] at ih ⊢
+    rw [ih, sub_shift]
+
+theorem wDev2_shift (t c : V3) (l : List (Rat × V3)) : wDev2 (shiftW t l) (c.add t) = wDev2 l c := by
+  rw [← wOuter_tr, ← wOuter_tr, wOuter_shift]
+
+/-- **the squared radius of gyration (any weights with non-zero total) is unchanged by a translation** -/
+theorem c09_rg_translate (t : V3) (l : List (Rat × V3)) (hW : wTotal l ≠ 0) : rg2 (shiftW t l) = rg2 l := by
+  simp only [rg2]
+  rw [c09_com_translate t l hW, wDev2_shift, wTotal_shift]
+
+/-- **the gyration tensor is unchanged by a translation**, for every non-empty list of positions and every `t` -/
+theorem c09_gyration_translate (t : V3) (xs : List V3) (hx : xs ≠ []) : gyration (xs.map (fun x => x.add t)) = gyration xs := by
+  have hmap : (xs.map (fun x => x.add t)).map (fun x => ((1 : Rat), x)) = shiftW t (xs.map (fun x => ((1 : Rat), x))) := by
+    simp [shiftW, List.map_map, Function.comp_def]
+  have hW : wTotal (xs.map (fun x => ((1 : Rat), x))) ≠ 0 := by
+    rw [wTotal_unit]
+    have : xs.length ≠ 0 := by
+      intro h; exact hx (List.length_eq_zero_iff.mp h)
+    exact_mod_cast this
+  simp only [gyration]
+  rw [hmap, c09_com_translate t _ hW, wOuter_shift, List.length_map]
+
+/-- every position rotated (or reflected) by `R`, weights kept -/
+def rotW (R : M3) (l : List (Rat × V3)) : List (Rat × V3) := l.map (fun p => (p.1, R.apply p.2))
+
+theorem wTotal_rot (R : M3) (l : List (Rat × V3)) : wTotal (rotW R l) = wTotal l := by
+  simp [wTotal, rotW, List.map_map, Function.comp_def]
+
+theorem apply_add (R : M3) (u v : V3) : R.apply (u.add v) = (R.apply u).add (R.apply v) := by
+  simp only [M3.apply, V3.add, V3.dot, V3.mk.injEq]
+  refine ⟨by ring, by ring, by ring⟩
+
+theorem apply_smul (R : M3) (k : Rat) (v : V3) : R.apply (V3.smul k v) = V3.smul k (R.apply v) := by
+  simp only [M3.apply, V3.smul, V3.dot, V3.mk.injEq]
+  refine ⟨by ring, by ring, by ring⟩
+
+theorem wFirst_rot (R : M3) (l : List (Rat × V3)) : wFirst (rotW R l) = R.apply (wFirst l) := by
+  induction l with
+  | nil => simp [wFirst, rotW, M3.apply, V3.dot]
+  | cons p ps ih =>
+    simp only [wFirst, rotW, List.map_cons, List.foldr_cons] at ih ⊢
+    rw [ih, apply_add, apply_smul]
+
+/-- the centre of mass turns with the system (any linear map) -/
+theorem c09_com_rotate (R : M3) (l : List (Rat × V3)) : com (rotW R l) = R.apply (com l) := by
+  simp only [com, wFirst_rot, wTotal_rot, apply_smul]
+
+theorem wDev2_rot (R : M3) (hR : R.Orthogonal) (c : V3) (l : List (Rat × V3)) : wDev2 (rotW R l) (R.apply c) = wDev2 l c := by
+  induction l with
+  | nil => rfl
+  | cons p ps ih =>
+    simp only [wDev2, rotW, List.map_cons, List.sum_cons] at ih ⊢
+    rw [ih, ← MdVerif.Mic.apply_sub, MdVerif.Mic.c09_norm2_invariant R hR]
+
+/-- **the squared radius of gyration is unchanged by every rotation and reflection** (any weights) -/
+theorem c09_rg_rotate (R : M3) (hR : R.Orthogonal) (l : List (Rat × V3)) : rg2 (rotW R l) = rg2 l := by
+  simp only [rg2]
+  rw [c09_com_rotate, wDev2_rot R hR, wTotal_rot]
+
+/-- … and so is the trace of the gyration tensor (the sum of the principal moments) -/
+theorem c09_gyration_trace_rotate (R : M3) (hR : R.Orthogonal) (xs : List V3) :
+    (gyration (xs.map R.apply)).tr = (gyration xs).tr := by
+  rw [c16_gyration_trace, c16_gyration_trace]
+  have : (xs.map R.apply).map (fun x => ((1 : Rat), x)) = rotW R (xs.map (fun x => ((1 : Rat), x))) := by
+    simp [rotW, List.map_map, Function.comp_def]
+  rw [this, c09_rg_rotate R hR]
+
+/-- the tensor taken about the origin instead (the centring pass skipped): moving two atoms by (1, 0, 0) changes it -/
+theorem c09_uncentred_witness :
+    (wOuter [((1 : Rat), (⟨0, 0, 0⟩ : V3)), (1, ⟨1, 0, 0⟩)] ⟨0, 0, 0⟩).xx = 1 ∧
+    (wOuter (shiftW ⟨1, 0, 0⟩ [((1 : Rat), (⟨0, 0, 0⟩ : V3)), (1, ⟨1, 0, 0⟩)]) ⟨0, 0, 0⟩).xx = 5 ∧
+    (gyration [(⟨0, 0, 0⟩ : V3), ⟨1, 0, 0⟩]).xx = (gyration [(⟨1, 0, 0⟩ : V3), ⟨2, 0, 0⟩]).xx := by
+  refine ⟨by decide +kernel, by decide +kernel, by decide +kernel⟩
+
+end MdVerif.Descr
+
